@@ -473,7 +473,10 @@ def _any_expr(dbmodel, expression):
 
 
 def _all_expr(dbmodel, expression):
-    derived = expression.args[0].where(1, 0).min() >= data_algebra.expr_rep.Value(1)
+    # missing values are skipped (as by Pandas/Polars all() and SQL EVERY), not counted as False
+    derived = expression.args[0].coalesce(data_algebra.expr_rep.Value(True)).where(
+        1, 0
+    ).min() >= data_algebra.expr_rep.Value(1)
     return dbmodel.expr_to_sql(derived, want_inline_parens=True)
 
 
